@@ -105,6 +105,8 @@ class World:
         self.keylabel = {}
         self.addrlabel = {}
         self.torn_at = None
+        self.api = {}             # label -> True while a teardown API of the overlay runs on the harness' behalf
+        self.no_ipv6 = False      # the host cannot bind "::" (configuration class)
         self.creates = []         # every create that went over the wire (for late duplicates)
         self.parent = {}          # circuit id -> the id it was extended from (lineage, over all nodes)
         self.transports = []      # (owner exit socket, transport) of every datagram endpoint the loop created
@@ -121,12 +123,13 @@ class World:
         self.stats[k] = self.stats.get(k, 0) + n
 
     # ---- construction ------------------------------------------------------------------------------
-    async def build(self, exit_flags):
+    async def build(self, exit_flags, hidden=()):
         from ipv8.messaging.anonymization.community import TunnelCommunity, TunnelSettings
+        from ipv8.messaging.anonymization.hidden_services import HiddenTunnelCommunity, HiddenTunnelSettings
         from ipv8.messaging.anonymization.tunnel import PEER_FLAG_EXIT_BT, PEER_FLAG_RELAY, PEER_FLAG_SPEED_TEST
         from ipv8.test.mocking.ipv8 import MockIPv8
         for j in range(self.n):
-            s = TunnelSettings()
+            s = HiddenTunnelSettings() if (j + 1) in hidden else TunnelSettings()
             s.min_circuits = 0
             s.max_circuits = 0
             flags = {PEER_FLAG_RELAY, PEER_FLAG_SPEED_TEST}
@@ -135,7 +138,7 @@ class World:
             s.peer_flags = flags
             for k, v in self.settings_patch.items():
                 setattr(s, k, v)
-            node = MockIPv8("curve25519", TunnelCommunity, settings=s)
+            node = MockIPv8("curve25519", HiddenTunnelCommunity if (j + 1) in hidden else TunnelCommunity, settings=s)
             self.nodes.append(node)
             lab = j + 1
             self.starts.append(self.ticks())
@@ -254,7 +257,8 @@ class World:
                         es = ov.exit_sockets.get(circuit_id)
                         foreign = es is not None and not es.enabled and source[0] != es.hop.address[0]
                         if es is not None and not foreign and tuple(p.dest_address) != ("0.0.0.0", 0):
-                            sent = bool(es.is_allowed(p.data))
+                            sent = bool(es.is_allowed(p.data)) and \
+                                (not world.no_ipv6 or es.transport_ipv4 is not None)
                             if not es.enabled:
                                 world.count("exit_enabled_by_data:" + ("after_teardown" if world.torn_at is not None
                                                                        else "before_teardown"))
@@ -327,6 +331,9 @@ class World:
             if r is not None and isinstance(cache, CreateRequestCache):
                 world.parent[cache.to_circuit_id] = cache.from_circuit_id
                 world.count("branch:on_extend:create_sent")
+                es0 = ov.exit_sockets.get(cache.from_circuit_id)
+                if es0 is not None and es0.enabled:
+                    world.count("extend_of_enabled_exit_socket")
                 for rec in reversed(world.pending[lab]):
                     if rec["k"] == "cell" and rec["body"][0] == "extend" and rec["id"] == cache.from_circuit_id \
                             and rec["body"][1] == 70000:
@@ -455,6 +462,15 @@ class World:
             return r
         ov.join_circuit = join_circuit
 
+        # -- teardown APIs of the overlay (leave_swarm …) reach the tables through remove_circuit: log those calls
+        orig_rmc = ov.remove_circuit
+
+        def remove_circuit(circuit_id, additional_info="", remove_now=False, destroy=False):
+            if world.api.get(lab):
+                log({"k": "rmc", "id": circuit_id, "destroy": bool(destroy)})
+            return orig_rmc(circuit_id, additional_info, remove_now, destroy)
+        ov.remove_circuit = remove_circuit
+
         # -- the network: faults
         ep = node.endpoint
         orig_send = ep.send
@@ -491,17 +507,20 @@ class World:
                     if f.nth is not None and idx not in f.nth:
                         continue
                     world.count(f"fault:{f.action}:{kind}")
+                    # a delayed packet arrives on a tick ≡ 3 (mod 4): never on a node timer (≡ 0), a harness action
+                    # (≡ 1) or a checkpoint (≡ 2), so that no compared order depends on how asyncio breaks ties
+                    late = f.delay + ((3 - (now + f.delay)) % 4) if f.delay else 0
                     if f.action == "drop":
                         return None
                     if f.action == "dup":
                         orig_send(addr, packet)
                         if f.delay:
-                            world.loop.call_later(f.delay / TPS, world.safe_send, lab, orig_send, addr, packet)
+                            world.loop.call_later(late / TPS, world.safe_send, lab, orig_send, addr, packet)
                         else:
                             orig_send(addr, packet)
                         return None
                     if f.action == "delay":
-                        world.loop.call_later(f.delay / TPS, world.safe_send, lab, orig_send, addr, packet)
+                        world.loop.call_later(late / TPS, world.safe_send, lab, orig_send, addr, packet)
                         return None
             world.count(f"net:pass:{kind}")
             return orig_send(addr, packet)
@@ -519,13 +538,13 @@ class World:
     def ov(self, lab):
         return self.nodes[lab - 1].overlay
 
-    def create_circuit(self, lab, hops, required_exit=None):
+    def create_circuit(self, lab, hops, required_exit=None, **kw):
         ov = self.ov(lab)
         rec = {"k": "mk", "next": None, "t": self.ticks()}
         prev = self.ctx[lab]
         self.ctx[lab] = rec
         try:
-            circuit = ov.create_circuit(hops, required_exit=required_exit)
+            circuit = ov.create_circuit(hops, required_exit=required_exit, **kw)
         finally:
             self.ctx[lab] = prev
         if circuit is None:
@@ -560,6 +579,13 @@ class World:
         if ov.circuits:
             raise InfraError("a node without candidates built a circuit")
         self.count("wanting_node")
+
+    def leave_swarm(self, lab, info_hash):
+        self.api[lab] = True
+        try:
+            self.ov(lab).leave_swarm(info_hash)
+        finally:
+            self.api[lab] = False
 
     def make_bad_cands(self, lab, count):
         """faulty hop of another kind: the handshake verifies but the (encrypted) candidate list it returns cannot be
@@ -820,8 +846,16 @@ PHASES = ["ready", "transfer", "halfbuilt"]
 
 
 def odd(t):
-    """next tick ≡ 1 (mod 4) at or after t: harness actions never coincide with node timers or checkpoints"""
-    return t + ((1 - t) % 4)
+    """next tick ≡ 1 (mod 8) at or after t: circuits are created on this class, and so are the timers they start (all
+    periods are multiples of 8 ticks); node timers live on ≡ 0 (mod 4), checkpoints on ≡ 2 (mod 4), delayed packets on
+    ≡ 3 (mod 4)"""
+    return t + ((1 - t) % 8)
+
+
+def odd5(t):
+    """next tick ≡ 5 (mod 8): teardowns and later user actions - never on the tick of a retry / removal timer that an
+    earlier creation or teardown started"""
+    return t + ((5 - t) % 8)
 
 
 def make_spec(rng, idx, forced=None):
@@ -850,6 +884,13 @@ def make_spec(rng, idx, forced=None):
         # … or with a candidate list that cannot be decoded (the handshake itself verifies)
         "bad_cands": [[rng.randrange(2, 7), rng.choice([1, 1, 2, None])] for _ in range(rng.choice([1, 2, 3]))]
         if rng.random() < 0.15 else [],
+        # the host has no IPv6: binding the "::" outside socket raises OSError
+        "no_ipv6": rng.random() < 0.2,
+        # the exit the originator insists on is only known by host name: the extend naming it cannot be serialised
+        "unsendable_exit": rng.random() < 0.12,
+        # the originator already sends data over the hops it has while the circuit is still being built (the last hop
+        # so far exits it, gets its outside sockets, and is extended afterwards)
+        "early_data": rng.random() < 0.5,
     }
     if spec["hops"] == 1 and spec["teardown"] in ("relay_destroy", "relay_dies"):
         spec["teardown"] = rng.choice(["o_destroy", "exit_destroy", "exit_dies", "o_abandon"])
@@ -881,7 +922,7 @@ def spec_key(spec):
     return repr((spec["hops"], spec["phase"], spec["teardown"], spec["nodes"], spec["when"],
                  [(f["action"], f["kinds"], f["nth"], f["delay"], f["src"], f["dst"]) for f in spec["faults"]],
                  spec["chatty_outside"], spec["traffic_limit"], spec.get("payload"),
-                 spec.get("postmortem"), spec.get("wanting"), spec.get("companions"), spec.get("bad_auth"), spec.get("bad_cands")))
+                 spec.get("postmortem"), spec.get("wanting"), spec.get("companions"), spec.get("bad_auth"), spec.get("bad_cands"), spec.get("no_ipv6"), spec.get("unsendable_exit"), spec.get("early_data")))
 
 
 async def run_scenario(world: World, spec, deadline_extra=0):  # noqa: C901, PLR0912, PLR0915
@@ -906,7 +947,14 @@ async def run_scenario(world: World, spec, deadline_extra=0):  # noqa: C901, PLR
     t = odd(world.ticks() + 4)
     await asyncio.sleep((t - world.ticks()) / TPS)
     world.checkpoint_task = None
-    circuit = world.create_circuit(1, spec["hops"])
+    required_exit = None
+    if spec.get("unsendable_exit") and spec["hops"] >= 2:     # (a 1-hop circuit sends its create straight to the exit)
+        from ipv8.messaging.interfaces.udp.endpoint import DomainAddress
+        from ipv8.peer import Peer
+        tgt = world.nodes[world.rng.randrange(1, world.n)]
+        required_exit = Peer(tgt.my_peer.public_key.key_to_bin(), DomainAddress("exit.example.org", 4242))
+        world.count("unsendable_exit")
+    circuit = world.create_circuit(1, spec["hops"], required_exit=required_exit)
     info = {"built": False, "path": []}
     if circuit is None:
         raise InfraError("create_circuit returned None: no candidates in the scenario")
@@ -927,7 +975,7 @@ async def run_scenario(world: World, spec, deadline_extra=0):  # noqa: C901, PLR
     stage = "main"
     t_drop = None
     t_start = world.ticks()
-    t_tear = t_start + spec["when"]
+    t_tear = odd5(t_start + spec["when"])
     max_delay = max([f["delay"] for f in spec["faults"]] + [0])
     horizon = None
     nontrivial = False
@@ -942,7 +990,7 @@ async def run_scenario(world: World, spec, deadline_extra=0):  # noqa: C901, PLR
     while True:
         now = world.ticks()
         events = [next_cp]
-        if spec["phase"] == "transfer" and not torn:
+        if (spec["phase"] == "transfer" or spec.get("early_data")) and not torn:
             events.append(next_user)
         if spec["chatty_outside"] or spec["phase"] == "transfer":
             events.append(next_out)
@@ -973,7 +1021,7 @@ async def run_scenario(world: World, spec, deadline_extra=0):  # noqa: C901, PLR
                     if not alive:
                         break
                     stage = "final"
-                    t_drop = odd(now + 4)
+                    t_drop = odd5(now + 4)
                     end = next_cp + int(3 * B + 4) * TPS + max_delay - max_delay % TPS
                     continue
                 break
@@ -984,7 +1032,7 @@ async def run_scenario(world: World, spec, deadline_extra=0):  # noqa: C901, PLR
                 if lab not in world.dead and c2.circuit_id in world.ov(lab).circuits:
                     world.remove_circuit(lab, c2.circuit_id, False)
             continue
-        if spec["phase"] == "transfer" and not torn and now == next_user:
+        if (spec["phase"] == "transfer" or spec.get("early_data")) and not torn and now == next_user:
             pl = spec.get("payload", "bt")
             if pl == "mixed":
                 pl = world.rng.choice(["bt", "junk", "speedtest"])
@@ -1066,7 +1114,7 @@ async def run_scenario(world: World, spec, deadline_extra=0):  # noqa: C901, PLR
             # deadline: retries of a half-built circuit can last (tries0 + goal) * next_hop_timeout
             build_bound = (cfgm["circuit_timeout"] // cfgm["next_hop_timeout"] + 1 + spec["hops"]) * cfgm["next_hop_timeout"]
             lead = build_bound if not info["built"] else 2
-            t_final = odd(now + int(lead * TPS) + 4)
+            t_final = odd5(now + int(lead * TPS) + 4)
             quiet = t_final + int((3 * B + 4) * TPS) + max_delay + deadline_extra
             end = quiet + ((2 - quiet) % 4)
             # make the end coincide with a checkpoint
@@ -1159,6 +1207,58 @@ async def run_join_limit(world: World, spec):
                              CreatePayload(cid, rng.randrange(65536), ov.my_peer.public_key.key_to_bin(), dh[1]))
             nxt_probe += 3 * TPS + 4
     return True, {"final": world.tables_empty(), "held": held}
+
+
+async def run_swarm(world: World, spec):
+    """teardown through the production overlay's own API: node 1 is a HiddenTunnelCommunity holding, for one swarm, a
+    READY introduction circuit and one that is still being built (its completing answer is late), plus a data circuit of its
+    own; `leave_swarm` must tear down both swarm circuits - every entry descending from them is gone at the deadline -
+    while the data circuit lives on"""
+    from ipv8.messaging.anonymization.tunnel import CIRCUIT_TYPE_IP_SEEDER
+    await world.build([False] + [True] * (spec["nodes"] - 1), hidden=(1,))
+    meta = world.meta
+    B = meta["max_time_inactive"] + SWEEP_ALLOWANCE_S + meta["remove_tunnel_delay"]
+    info_hash = b"s" * 20
+    t = odd(world.ticks() + 4)
+    await asyncio.sleep((t - world.ticks()) / TPS)
+    hops = spec["hops"]
+    ready = world.create_circuit(1, hops, ctype=CIRCUIT_TYPE_IP_SEEDER, info_hash=info_hash)
+    await asyncio.sleep(64 / TPS)
+    # the answer that would complete the second circuit is late (it arrives after the swarm was left), not lost: a
+    # circuit with a required exit has no alternative and would give itself up on a lost answer
+    world.faults.append(Fault("delay", ["created"] if hops == 1 else ["extended"], nth=[0],
+                              delay=spec["leave_after"] + 3 * TPS))
+    building = world.create_circuit(1, hops, ctype=CIRCUIT_TYPE_IP_SEEDER, info_hash=info_hash)
+    await asyncio.sleep(8 / TPS)
+    data = world.create_circuit(1, hops)
+    if ready is None or building is None or data is None:
+        world.count("swarm:setup_incomplete")
+        return True, {"final": world.tables_empty()}
+    await asyncio.sleep(spec["leave_after"] / TPS)
+    world.count(f"swarm:leave:ready_state={ready.state}:building_state={building.state}")
+    world.leave_swarm(1, info_hash)
+    build_bound = (meta["circuit_timeout"] // meta["next_hop_timeout"] + 1 + hops) * meta["next_hop_timeout"]
+    now = world.ticks()
+    cp = now + ((2 - now) % 4)
+    main_end = cp + int(build_bound + 3 * B) * TPS
+    end = None
+    info = {}
+    while True:
+        await asyncio.sleep((cp - world.ticks()) / TPS)
+        world.checkpoint()
+        if end is None and cp >= main_end:
+            info["main_left"] = world.leftovers_of(ready.circuit_id) + world.leftovers_of(building.circuit_id)
+            world.count("swarm:data_circuit_alive_at_deadline", int(data.circuit_id in world.ov(1).circuits))
+            t = odd(world.ticks() + 4)
+            await asyncio.sleep((t - world.ticks()) / TPS)
+            if data.circuit_id in world.ov(1).circuits:
+                world.remove_circuit(1, data.circuit_id, False)
+            end = cp + int(3 * B + 4) * TPS
+        elif end is not None and cp >= end:
+            break
+        cp += TPS
+    info["final"] = world.tables_empty()
+    return True, info
 
 
 async def run_race(world: World, spec):
@@ -1310,7 +1410,13 @@ def run_case(ctx: Ctx, spec, use_model: bool, kind="scenario"):
     world.meta = META
     orig_cde = loop.create_datagram_endpoint
 
+    world.no_ipv6 = bool(spec.get("no_ipv6"))
+
     async def create_datagram_endpoint(*a, **k):
+        la = k.get("local_addr") or ()
+        if world.no_ipv6 and la and la[0] == "::":
+            world.count("ipv6_bind_refused")
+            raise OSError(97, "Address family not supported by protocol")
         transport, protocol = await orig_cde(*a, **k)
         owner = getattr(getattr(protocol, "received_cb", None), "__self__", None)
         world.transports.append((owner, transport))
@@ -1336,6 +1442,8 @@ def run_case(ctx: Ctx, spec, use_model: bool, kind="scenario"):
                     return await run_age_limit(world, spec)
                 if kind == "race":
                     return await run_race(world, spec)
+                if kind == "swarm":
+                    return await run_swarm(world, spec)
                 return await run_scenario(world, spec)
             finally:
                 await world.shutdown()
@@ -1490,6 +1598,29 @@ def run_all(ctx: Ctx, n_random, use_model, with_exhaustive):
                 forced[field] = bad
                 run_case(ctx, make_spec(ctx.rng, idx, forced), use_model)
                 idx += 1
+        # data exits at the last hop so far, which is extended afterwards (first extend / its answer lost, retry succeeds)
+        for hops, kinds, td in ((2, ["extend"], "o_destroy"), (3, ["extended"], "o_abandon"), (2, ["created"], "exit_dies"),
+                                (3, ["extend"], "relay_destroy")):
+            run_case(ctx, make_spec(ctx.rng, idx, {
+                "nodes": 5, "hops": hops, "teardown": td, "companions": [], "phase": "halfbuilt", "early_data": True,
+                "faults": [{"action": "drop", "kinds": kinds, "nth": [0], "delay": 0, "src": None, "dst": None}],
+                "traffic_limit": False, "wanting": "none", "when": 25 * TPS, "postmortem": [], "bad_auth": [],
+                "bad_cands": [], "payload": "bt", "no_ipv6": False, "unsendable_exit": False}), use_model)
+            idx += 1
+        # teardown through HiddenTunnelCommunity.leave_swarm with a circuit of the swarm still extending
+        for hops, after in ((1, 3 * TPS), (2, 3 * TPS), (3, 5 * TPS)):
+            run_case(ctx, {"nodes": 5, "hops": hops, "leave_after": after}, use_model, kind="swarm")
+        # a host without IPv6 (the "::" outside socket cannot be bound); an exit only known by host name
+        for hops, td, extra in ((1, "o_destroy", {"no_ipv6": True}), (2, "o_abandon", {"no_ipv6": True}),
+                                (3, "exit_destroy", {"no_ipv6": True}), (2, "none", {"unsendable_exit": True}),
+                                (3, "none", {"unsendable_exit": True})):
+            forced = {"nodes": 5, "hops": hops, "teardown": td, "companions": [], "faults": [], "traffic_limit": False,
+                      "phase": "transfer" if "no_ipv6" in extra else "halfbuilt", "wanting": "none", "when": 10 * TPS,
+                      "postmortem": [16], "bad_auth": [], "bad_cands": [], "payload": "bt", "no_ipv6": False,
+                      "unsendable_exit": False}
+            forced.update(extra)
+            run_case(ctx, make_spec(ctx.rng, idx, forced), use_model)
+            idx += 1
         run_case(ctx, {"nodes": 4, "hops": 2}, use_model, kind="age")
         for hops in (1, 2, 3):
             for variant in ("remove_now", "destroy0"):
@@ -1531,6 +1662,7 @@ COVERAGE_FLOOR = [
     "fault:drop:", "fault:dup:", "fault:delay:", "wanting_node", "final_abandon",
     "originator_entry_already_reclaimed", "companions_alive_at_main_deadline", "companion:created",
     "age:circuit_still_ready_before_limit", "race:remove_now:", "race:destroy0:", "case:join", "case:early",
+    "extend_of_enabled_exit_socket", "swarm:leave:", "swarm:data_circuit_alive_at_deadline", "ipv6_bind_refused", "unsendable_exit",
     "hops:1", "hops:2", "hops:3", "phase:halfbuilt", "phase:ready", "phase:transfer", "obs_compared",
 ]
 
@@ -1547,7 +1679,7 @@ def coverage_floor(ctx: Ctx):
 def run(ctx: Ctx):
     if ctx.replay_input is not None:
         return replay(ctx, ctx.replay_input)
-    run_all(ctx, ctx.scale(200, 400), ctx.model_ok, ctx.thorough())
+    run_all(ctx, ctx.scale(170, 400), ctx.model_ok, ctx.thorough())
     coverage_floor(ctx)
 
 
